@@ -127,6 +127,7 @@ func main() {
 	tier := flag.String("tier", "quick", "quick|thorough")
 	seed := flag.Int64("seed", 1, "seed")
 	leaves := flag.Bool("leaves", false, "leaf queries only (diagnosis)")
+	richOnly := flag.Int("rich", 0, "if > 0: only that many rich corpora (used by the C04 sub-check: many different searches on one reader)")
 	flag.Parse()
 	f, err := os.Create(*out)
 	if err != nil {
@@ -138,6 +139,9 @@ func main() {
 	nsmall, nq1, nrich, nq2, ngeo := 400, 30, 400, 40, 20
 	if *tier == "thorough" {
 		nsmall, nq1, nrich, nq2, ngeo = 4000, 40, 2500, 40, 200
+	}
+	if *richOnly > 0 {
+		nsmall, nrich, ngeo = 0, *richOnly, 0
 	}
 	if *leaves {
 		for i := 0; i < 200; i++ {
